@@ -61,5 +61,5 @@ def run(ctx, factor):
                                 model_agrees_with_spec=(o["model"][1]["allAddr"] == exp))
                 tags.append("address-only")
         rep.case(patdiff.case_of(o), usable, tags=tags)
-        if rep.violations and factor > 1:
+        if rep.has_new() and factor > 1:
             return
